@@ -532,7 +532,10 @@ func refSetGet(c *ctorEntry, arg string, def int64) (string, bool) {
 		}
 		for _, t := range items {
 			name := string(unhx(t))
-			if len(name) == 0 || len(name) > 253 {
+			if len(name) == 0 {
+				continue // the root name
+			}
+			if len(name) > 253 {
 				return "", false
 			}
 			for _, lab := range strings.Split(name, ".") {
@@ -584,6 +587,8 @@ func checkLineC17(line string) (what, class string, judged bool) {
 			return fmt.Sprintf("%s() = %q, reference interpretation of the raw value = %q", a.name, strings.TrimPrefix(got, "ok "), want), class, true
 		}
 		return "", "", true
+	case "v4hist":
+		return v4accCheckHist(line)
 	case "v4setget":
 		if len(toks) != 4 {
 			return "", "", false
@@ -652,6 +657,9 @@ func oracleC17(r *Rng, n int, thorough bool, seeds []string) *OracleResult {
 		"v4acc RelayAgentInfo 1 0102616202 0 -",
 		"v4acc RelayAgentInfo 1 01026162ff0909 0 -", // known finding acc-RelayAgentInfo-pad-end
 		"v4acc DomainName 1 6100 0 -",
+		// get, in-place write of one search domain (same count), set, read, also across the wire
+		"v4hist OptDomainSearch 1 076578616d706c6503636f6d0003666f6fc000 0 g s:1:6261722e6578616d706c652e6f7267 u o w o",
+		"v4hist OptRouter 1 0a0000010a000002 0 g s:1:01020304 a:05060708 u o w o g d:0 u o",
 		"v4acc RequestedIPAddress 1 0a00000105 0 -",
 		"v4acc IPAddressLeaseTime 1 000e10 5 -",
 		"v4acc ClasslessStaticRoute 1 210a000000010a000001 0 -",
@@ -676,6 +684,12 @@ func oracleC17(r *Rng, n int, thorough bool, seeds []string) *OracleResult {
 		if i%4 == 3 {
 			c := &ctorTable[(i/4)%len(ctorTable)]
 			l, tags := genSetGetLine(rr, c)
+			run(l, tags)
+			continue
+		}
+		if i%4 == 1 {
+			c := &ctorTable[(i/4)%len(ctorTable)]
+			l, tags := v4accGenHist(rr, c)
 			run(l, tags)
 			continue
 		}
